@@ -44,6 +44,7 @@ type simS struct {
 	reuse        bool // the concurrent caller recovers with Clear after an error
 	reported     int  // calls that returned an I/O error
 	clearedAlive bool // a Clear ran while a write() activation was alive (after an error)
+	clearRacy    bool // a Clear ran while a write() activation was alive (fourth wave: a cycle abandoned with Clear)
 }
 
 // tick: one execution of fault point pt; true = it fails.
@@ -200,8 +201,11 @@ func (s *simS) step(a int) bool {
 			}
 			s.ip++
 		case 'c':
-			if s.reported > 0 && (s.writersAlive() || len(s.writable) > 0) {
-				s.clearedAlive = true
+			if s.writersAlive() || len(s.writable) > 0 {
+				s.clearRacy = true
+				if s.reported > 0 {
+					s.clearedAlive = true
+				}
 			}
 			s.clear()
 			s.ip++
@@ -302,12 +306,7 @@ func newSimF(conc bool, c int, ac bool, ops []string, fault string, reuse bool) 
 	if !conc {
 		s.pool = 0
 	}
-	if fault != "-" && fault != "" {
-		for _, f := range strings.Split(fault, "+") {
-			i := strings.IndexByte(f, ':')
-			s.faults = append(s.faults, mFault{f[:i], hx.Atoi(f[i+1:])})
-		}
-	}
+	s.faults = parseMFaults(fault)
 	return s
 }
 
